@@ -16,6 +16,7 @@ from aws_durable_execution_sdk_python.exceptions import (
 )
 from aws_durable_execution_sdk_python.lambda_service import (
     ErrorObject,
+    OperationStatus,
     OperationUpdate,
 )
 from aws_durable_execution_sdk_python.logger import Logger, LogInfo
@@ -152,8 +153,14 @@ class StepOperationExecutor(OperationExecutor[T]):
         ):
             return CheckResult.create_is_ready_to_execute(checkpointed_result)
 
-        # Create START checkpoint if not exists
-        if not checkpointed_result.is_existent():
+        # Create START checkpoint if not exists. With at-most-once semantics every attempt must be
+        # durably started before the function is entered, so a retry attempt (READY) is started too;
+        # otherwise a crash inside it would be indistinguishable from "never ran" and run it again.
+        is_ready_at_most_once: bool = (
+            checkpointed_result.status is OperationStatus.READY
+            and self.config.step_semantics is StepSemantics.AT_MOST_ONCE_PER_RETRY
+        )
+        if not checkpointed_result.is_existent() or is_ready_at_most_once:
             start_operation: OperationUpdate = OperationUpdate.create_step_start(
                 identifier=self.operation_identifier,
             )
